@@ -86,7 +86,11 @@ ENC = {
     'enc-cer': lambda o: cer_enc.encode(o),
     'enc-der': lambda o: der_enc.encode(o),
     'enc-native': lambda o: repr(nat_enc.encode(o)),
+    # documented per-call option with a non-default value: must not outlive the call
+    'enc-der-keepempty': lambda o: der_enc.encode(o, omitEmptyOptionals=False),
+    'enc-ber-omitempty': lambda o: ber_enc.encode(o, omitEmptyOptionals=True),
 }
+OPTION_CALLS = ('enc-der-keepempty', 'enc-ber-omitempty', 'dec-ber-cer-tagmap')
 DEC = {
     'dec-ber': ber_dec.decode, 'dec-cer': cer_dec.decode, 'dec-der': der_dec.decode,
 }
@@ -359,6 +363,17 @@ def part_a(tier, i, n, seed, R):
     idx = -1
     seen_states = set()
     scenarios_a = [Scenario(name, T, v) for name, T, v in TYPES] + [mk() for mk in OPEN_SCENARIOS]
+    # isolated outcomes of every call are taken first, in a process where no call has carried an option yet: the
+    # calls that pass per-call options come last (a codec that remembered an option would otherwise taint the
+    # baseline itself)
+    for sc in scenarios_a:
+        for call in sc.calls:
+            if call != 'mutate-last' and call not in OPTION_CALLS:
+                sc.solo(call)
+    for sc in scenarios_a:
+        for call in sc.calls:
+            if call in OPTION_CALLS:
+                sc.solo(call)
     for sc in scenarios_a:
         for L in range(1, maxlen + 1):
             for seq in itertools.product(sc.calls, repeat=L):
@@ -539,6 +554,14 @@ def part_b(tier, i, n, seed, R):
         e = list(SC.encodings(names=(nm,)))[0]
         if len(e[4]) <= 9:
             encs.append(e)
+    # several DIFFERENT values of one type, so that state kept across a suspension shows (bit strings with
+    # different unused-bit counts, integers and strings of different lengths)
+    extras = [(U.BITS, ['101', '1010101', '1111000011']), (U.INT, [5, -129])]
+    if tier != 'quick':
+        extras += [(U.OCTS, [b'ab', b'xyz']), (('SEQOF', U.BITS), [['1', '10'], ['111']])]
+    for T, vals in extras:
+        for v in vals:
+            encs.append(('extra', 'der', T, v, M.der(T, v)))
     idx = -1
     for a, b in itertools.product(encs, repeat=2):
         if a[2] != b[2]:
@@ -577,6 +600,17 @@ def part_b(tier, i, n, seed, R):
     R.sample({'part': 'B', 'decoders': k, 'example_order': [0, 1, 1, 0, 0, 1]})
 
 
+def underrun_digest(item):
+    ctx = getattr(item, 'context', None)
+    if not isinstance(ctx, dict):
+        return (type(ctx).__name__,)
+    out = []
+    for k in sorted(ctx, key=repr):
+        v = ctx[k]
+        out.append((repr(k), type(v).__name__, id(v) if isinstance(v, pybase.Asn1Item) else None))
+    return (id(ctx), tuple(out), str(item)[:80])
+
+
 def interleavings(nsteps):
     a, b = nsteps
     for pos in itertools.combinations(range(a + b), a):
@@ -592,6 +626,7 @@ def run_interleaved(datas, spec, T, order):
         streams.append(decoder_steps(d, spec))
     outs = [[], []]
     done = [False, False]
+    kept = [[], []]       # the "need more data" objects each decoder handed out, with what they said at the time
     for j in order:
         if done[j]:
             continue
@@ -607,9 +642,21 @@ def run_interleaved(datas, spec, T, order):
             done[j] = True
             continue
         if isinstance(item, pyerr.SubstrateUnderrunError) or item is None:
+            if item is not None:
+                kept[j].append((item, underrun_digest(item)))
             s.more()
         else:
             outs[j].append(repr(abs_or_err(item, T, spec)))
+    # an object handed to one consumer is that consumer's: the other decoder neither hands out the same object nor
+    # changes what it says
+    ids0 = set(id(x) for x, _ in kept[0])
+    if any(id(x) in ids0 for x, _ in kept[1]):
+        outs[1].append('shared-underrun-object')
+    for j in (0, 1):
+        for x, d in kept[j]:
+            if underrun_digest(x) != d:
+                outs[j].append('underrun-object-changed-later')
+                break
     # drain (an interleaving lists exactly the solo step counts; a decoder needing more steps is a difference)
     for j in (0, 1):
         if not done[j]:
